@@ -117,6 +117,17 @@ def prefetch_configs(tier, seed=1):
         return [mk('g++', 'c++11', 'none'), mk('g++', 'c++11', 'SSE2'), mk('g++', 'c++17', 'AVX2'), mk('g++', 'c++20', 'full'),
                 mk('clang++', 'c++14', 'none', opt='-O0'), mk('clang++', 'c++11', 'SSE4_2', extra_defs=L), mk('g++', 'c++14', 'none', extra_defs=L, finl=True),
                 mk('g++', 'c++14', 'SCALAR', opt='-O0'), mk('clang++', 'c++20', 'X86')]
-    out = vector_configs(tier, seed)
-    out += [mk(cxx, 'c++11', ms, opt=o, extra_defs=L) for cxx in ('g++', 'clang++') for ms in ('none', 'SSE2', 'AVX2', 'full') for o in ('-O0', '-O2')]
-    return out
+    # Cache.hpp looks only at the compiler, AVEL_SSE (implied by every SSE..AVX-512 macro), AVEL_X86 and the line-size macros:
+    # the thorough list crosses those dimensions instead of walking the whole vector macro lattice
+    out = prefetch_configs('quick', seed)
+    stds = ['c++11', 'c++14', 'c++17', 'c++20']
+    for cxx in ('g++', 'clang++'):
+        for i, ms in enumerate(('none', 'X86', 'SCALAR', 'SSE2', 'SSE4_2', 'AVX', 'AVX2', 'AVX512F', 'full')):
+            for o in ('-O0', '-O2'):
+                out.append(mk(cxx, stds[(i + (o == '-O2')) % 4], ms, opt=o, finl=(i % 2 == 1)))
+    out += [mk(cxx, 'c++11', ms, opt=o, extra_defs=L) for cxx in ('g++', 'clang++') for ms in ('none', 'SSE2', 'full') for o in ('-O0', '-O2')]
+    seen, uniq = set(), []
+    for c in out:
+        if c['id'] not in seen:
+            seen.add(c['id']); uniq.append(c)
+    return uniq
